@@ -220,7 +220,7 @@ namespace AIToolbox::POMDP {
         auto it = obs.find(o);
         if ( it == obs.end() ) {
             AI_LOGGER(AI_SEVERITY_WARNING, "Observation " << o << " never experienced in simulation, restarting with uniform belief..");
-            return sampleAction(Belief(S, 1.0 / S), horizon);
+            return sampleAction(Belief::Constant(S, 1.0 / S), horizon);
         }
 
         // Here we need an additional step, because *it is contained by graph_.
@@ -232,7 +232,7 @@ namespace AIToolbox::POMDP {
 
         if ( graph_.isSampleBeliefEmpty() ) {
             AI_LOGGER(AI_SEVERITY_WARNING, "rPOMCP lost track of the belief, restarting with uniform..");
-            return sampleAction(Belief(S, 1.0 / S), horizon);
+            return sampleAction(Belief::Constant(S, 1.0 / S), horizon);
         }
 
         return runSimulation(horizon);
